@@ -307,6 +307,7 @@ def run(ctx):
                 continue
             if t not in optional:
                 got.append(t)
+        ctx.extra["events_matched"] = ctx.extra.get("events_matched", 0) + len(set(got) & set(exp))
         if got == exp:
             continue
         gs, es = set(got), set(exp)
@@ -329,6 +330,7 @@ def run(ctx):
     for key, lst in sorted(agg.items()):
         ctx.violation(key, "%s  [%d run(s)]" % (lst[0][0][:600], len(lst)), lst[0][1])
     ctx.extra.update({"files": nfiles, "runs": len(jobs)})
+    ctx.require(ctx.extra.get("events_matched", 0) >= 5 * nfiles, "only %d reported events were matched to input records" % ctx.extra.get("events_matched", 0))
 
 
 def _head(path):
